@@ -191,7 +191,7 @@ func genCORSCase(t *rapid.T, preflightHeavy bool) CORSCase {
 	for i := 0; i < ne; i++ {
 		c.Spec.Expose = append(c.Spec.Expose, rapid.SampledFrom([]string{"X-Total", "X-Page", "ETag"}).Draw(t, "expose"))
 	}
-	c.Spec.MaxAge = rapid.SampledFrom([]int{0, 0, 3600}).Draw(t, "maxage")
+	c.Spec.MaxAge = rapid.SampledFrom([]int{0, 0, 3600, 1}).Draw(t, "maxage")
 	if rapid.IntRange(0, 1).Draw(t, "methodsconfigured") == 0 {
 		nm := rapid.IntRange(1, 3).Draw(t, "nmethods")
 		for i := 0; i < nm; i++ {
@@ -244,7 +244,7 @@ func genCORSCase(t *rapid.T, preflightHeavy bool) CORSCase {
 					if len(c.Spec.Headers) > 0 && c.Spec.Headers[0] != "*" && rapid.IntRange(0, 9).Draw(t, "hdrallowed") < 7 {
 						h = rapid.SampledFrom(c.Spec.Headers).Draw(t, "reqheader")
 					} else {
-						h = rapid.SampledFrom(append([]string{"X-Other", "X-Csrf-Exempt"}, corsHeaderPool...)).Draw(t, "reqheader")
+						h = rapid.SampledFrom(append([]string{"X-Other", "X-Csrf-Exempt", "X"}, corsHeaderPool...)).Draw(t, "reqheader") // "X": the shortest header list there is
 					}
 					h = swapCase(h, rapid.IntRange(0, 3).Draw(t, "hdrcase"))
 					h = strings.Repeat(" ", rapid.IntRange(0, 1).Draw(t, "hdrsp1")) + h + strings.Repeat(" ", rapid.IntRange(0, 1).Draw(t, "hdrsp2"))
